@@ -93,7 +93,7 @@ Definition bhead_eqb (a b : bhead) : bool :=
 (* 0 = agree; 1 = the ity is outside the supported grammar; 2 = the ty has no constructor case; 3 = different heads *)
 Definition heads_agree (D : dtables) (E : Core.env) (t : ity) (tau : Core.ty) : nat :=
   if negb (supported D t && negb (is_typevar t)) then 1
-  else match kind_of (d_tbl D) (peel t), ty_bhead E (Build.unwrap tau) with
+  else match kind_of (d_tbl D) (peel t), ty_bhead E (Build.unwrap E tau) with
        | Some k, Some h => if bhead_eqb (build_head k) h then 0 else 3
        | None, _ => 1
        | _, None => 2
